@@ -446,7 +446,8 @@ def msg_class(cm, fix=(False, False, False, False, False), weak=False):
                 return {'class': 'te-spelling', 'te': TE_TEXT[val].decode()}
     if cm['hascl'] and not cm['clok'] and not cm['te'] and not bodyless and not fix_cl:
         return {'class': 'invalid-content-length', 'cl': 'nonnum' if cm['clv'] == CL_NONNUM else 'neg'}
-    if cm['hascl'] and cm['clok'] and not cm['te'] and not bodyless and cm['clv'] == 0 and len(cm['raw']) > 0:
+    if cm['hascl'] and cm['clok'] and not cm['te'] and not bodyless and cm['clv'] == 0 and len(cm['raw']) > 0 \
+            and not (len(fix) > 6 and fix[6]):
         return {'class': 'overrun', 'cl': 0}
     if weak and cm.get('vspace'):
         # a description only (asked for last, so that it never hides an inherited class)
